@@ -16,6 +16,7 @@ type projGen struct {
 	r              *rng.R
 	schemes        []irScheme
 	prefixTrailing bool // the controller route ends in "/": a method route may then start with a {param}
+	sharedNames    bool // VH_SHARED_NAMES: methods of different controllers share their Go names
 }
 
 var pgPrims = []string{"string", "int", "int64", "uint", "bool", "float64", "uint8"}
@@ -46,6 +47,10 @@ func (g *projGen) security() []pAnnot {
 func (g *projGen) method(ci, mi int, prefixParams []string, types []pType, file string) pMethod {
 	r := g.r
 	m := pMethod{Name: fmt.Sprintf("Op%d_%d", ci, mi), File: file}
+	if g.sharedNames {
+		// the same Go method name on several controllers (C15: each offending METHOD gets its warning, whatever it is called)
+		m.Name = fmt.Sprintf("Op_%d", mi)
+	}
 	if r.Chance(1, 3) {
 		m.Free = []string{rng.Pick(r, []string{"Does a thing", "Lists é items", "Multi", "line one"})}
 	}
@@ -497,6 +502,7 @@ func (g *projGen) perturb(m *pMethod, structNames []string) string {
 
 func genProject(r *rng.R, nPerturb int) (pProject, []string) {
 	g := &projGen{r: r}
+	g.sharedNames = os.Getenv("VH_SHARED_NAMES") != "" && r.Bool()
 	p := pProject{Indent: rng.Pick(r, []string{"", "", "\t"})}
 	ns := r.Intn(3)
 	for i := 0; i < ns; i++ {
@@ -679,6 +685,20 @@ func genProject(r *rng.R, nPerturb int) (pProject, []string) {
 				}
 			}
 			applied = append(applied, "same-route-other-controller")
+			if r.Bool() && len(p.Controllers[1].Annots) > 0 {
+				// … and under the SAME prefix: the two methods (of two controllers, possibly with one Go name) serve one
+				// verb + path, each of them must get its `route-conflict` warning
+				for _, a := range p.Controllers[0].Annots {
+					if a.Name == "Route" {
+						for i := range p.Controllers[1].Annots {
+							if p.Controllers[1].Annots[i].Name == "Route" {
+								p.Controllers[1].Annots[i].Value = a.Value
+								applied = append(applied, "same-prefix-other-controller")
+							}
+						}
+					}
+				}
+			}
 		}
 	}
 	if nPerturb > 0 && r.Chance(1, 4) {
